@@ -122,7 +122,8 @@ FASTOR_INLINE void _transpose<float,3,3>(const float * FASTOR_RESTRICT a, float 
     // 5 OPS
     __m128 row0 = _mm_loadu_ps(a);
     __m128 row1 = _mm_loadu_ps(a+3);
-    __m128 row2 = _mm_loadu_ps(a+6);
+    // a[6],a[7],a[8],0 - a 4-wide load at a+6 would read past the 9 elements
+    __m128 row2 = _mm_movelh_ps(_mm_loadl_pi(_mm_setzero_ps(),(const __m64*)(a+6)),_mm_load_ss(a+8));
 
     __m128 T0   = _mm_unpacklo_ps(row0,row1);
     __m128 T1   = _mm_unpackhi_ps(row0,row1);
@@ -133,7 +134,9 @@ FASTOR_INLINE void _transpose<float,3,3>(const float * FASTOR_RESTRICT a, float 
 
     _mm_storeu_ps(out,row0);
     _mm_storeu_ps(out+3,row1);
-    _mm_storeu_ps(out+6,row2); // out of range for out[9]
+    // only out[6..8] - a 4-wide store at out+6 would write past the 9 elements
+    _mm_storel_pi((__m64*)(out+6),row2);
+    _mm_store_ss(out+8,_mm_movehl_ps(row2,row2));
 #else
     // 3 OPS
     // gcc/clang emit vpermsps tht operate on (%rsp)
